@@ -192,7 +192,14 @@ func makePoison(rng *rand.Rand, root *Root) []PoisonEntry {
 			}
 		}
 		var mv int
+		// "almost" moves: encodings that are genuine moves in slightly different positions
+		almost := []int{4<<6 | 6, 4<<6 | 2, 60<<6 | 62, 60<<6 | 58} // the four castling encodings
+		for f := 0; f < 8; f++ {
+			almost = append(almost, (8+f)<<6|(24+f), (48+f)<<6|(32+f)) // double pushes
+		}
 		switch {
+		case rng.IntN(4) == 0:
+			mv = almost[rng.IntN(len(almost))]
 		case len(bad) > 0 && rng.IntN(3) != 0:
 			mv = int(bad[rng.IntN(len(bad))])
 		case rng.IntN(2) == 0:
@@ -318,8 +325,20 @@ func (c *Campaign) Go() {
 		if rng.IntN(2) == 0 {
 			warmUp(s, cs, rng, tt, lcs[wk])
 		}
-		if rng.IntN(3) == 0 {
+		if rng.IntN(3) == 0 || kind == "castle" || kind == "blocked-castle" {
 			cs.Poison = makePoison(rng, &root)
+			if kind == "castle" || kind == "blocked-castle" {
+				// a castling encoding of the side to move is planted for the root hash (one entry per
+				// key survives): only a genuine castling move may be played
+				mv := 4<<6 | 2
+				if rng.IntN(3) == 0 {
+					mv = 4<<6 | 6
+				}
+				if !root.Pos.White {
+					mv += 56<<6 | 56
+				}
+				cs.Poison = []PoisonEntry{{Move: mv, Depth: 1 + rng.IntN(10), Value: []int{300, 900, 9990}[rng.IntN(3)], Type: 1 + rng.IntN(2)}}
+			}
 		}
 		n := 2 + rng.IntN(6)
 		for k := 0; k < n; k++ {
